@@ -281,7 +281,7 @@ def rule_update_resets(ctx):
                 ok = bool(w) and all(is_clock(e[2]) for e in w)
                 r.instance(function=root, store=store, written=bool(w), value=fmt(w[-1][2])[:60] if w else None, ok=ok)
                 if not w:
-                    r.violate(root, 'update-does-not-reset', store, 'the update path of sync insert does not write EntryInfo.%s: the %s interval is not restarted by an update'
+                    r.violate(root, 'update-does-not-reset', store, 'the update path of sync insert does not write EntryInfo.%s: the %s interval is not restarted by an update, and an update made after invalidate_all keeps a timestamp below the watermark (it is hidden and then evicted)'
                               % (store, 'ttl' if store == 'last_modified' else 'tti'), where=ctx.where(root),
                               expected='set_last_modified(ts) and set_last_accessed(ts) on update')
                 elif not ok:
